@@ -42,8 +42,10 @@ pub fn gen_optimizer(t: &mut Tape) -> Kind {
 
 fn decode(tape: &[u32]) -> Case {
     let mut t = Tape::new(tape);
-    let o = GenOpts { acts: &[ActK::Linear, ActK::Tanh, ActK::Sigmoid, ActK::Leaky], max_hw: 4, max_c: 2, max_dense: 5, allow_feedback: false, ..GenOpts::default() };
-    let input = if t.bool() { vec![t.usize(1, 2), t.usize(1, 4), t.usize(1, 4)] } else { vec![t.usize(1, 5)] };
+    // one case in 40: flat blocks whose weight matrices have 65-140 rows / columns (beyond one 64-row chunk)
+    let wide = t.chance(1, 40);
+    let o = GenOpts { acts: &[ActK::Linear, ActK::Tanh, ActK::Sigmoid, ActK::Leaky], max_hw: 4, max_c: 2, max_dense: if wide { 140 } else { 5 }, allow_feedback: false, ..GenOpts::default() };
+    let input = if wide { vec![t.usize(65, 140)] } else if t.bool() { vec![t.usize(1, 2), t.usize(1, 4), t.usize(1, 4)] } else { vec![t.usize(1, 5)] };
     let mut layers = Vec::new();
     let mut cur = input.clone();
     if t.chance(1, 3) {
@@ -147,6 +149,9 @@ fn check(case: &Case, ev: &mut CaseEv) -> CheckResult {
     ev.class(format!("optimizer:{}", case.kind.name()));
     ev.class(format!("loops{}", loops));
     ev.class(if kernel_block { "kernel block" } else { "dense block" });
+    if case.spec.input.len() == 1 && case.spec.input[0] > 64 {
+        ev.class("wide dense block (65-140 rows)");
+    }
     if *inskips || *outskips {
         ev.class("block with skips");
     }
@@ -240,7 +245,7 @@ impl Prop for C10 {
         Some(2)
     }
     fn rule(&self) -> String {
-        "tape-decoded history: small network = optional shape-keeping prefix layer + feedback block (1-3 dense layers, or 1-2 shape-preserving convolution / deconvolution layers; bias on/off; loops 1-4; any skip flags; coupling accumulation in {add, subtract, multiply, mean}) + optional dense layer; one of five optimizers with option variants; 1-4 learn() calls with batch 1-4, 1-4 epochs, with or without validation data (early-stopping tolerance 1, 2 or 1000), 1-6 samples (a quarter of them all-zero), learning rates from 1e-5 to 0.1. Invariant after creation and after every call: all unrolled repetitions of every block layer hold bit-identical weights, biases and kernels (read through the hooks), and the `parameters:` number of the Display text equals the model count with each shared parameter once. Kernel blocks with subtract / multiply coupling abort the first step with 'Invalid sub./mul.' (refused loudly: classified unsupported, not asserted on); NaN-diverged runs are discards. Non-trivial: loops >= 2 and weights changed. Distinct = (block and network specification, optimizer, call pattern).".into()
+        "tape-decoded history: small network = optional shape-keeping prefix layer + feedback block (1-3 dense layers, or 1-2 shape-preserving convolution / deconvolution layers; bias on/off; one case in 40 with widths 65-140; loops 1-4; any skip flags; coupling accumulation in {add, subtract, multiply, mean}) + optional dense layer; one of five optimizers with option variants; 1-4 learn() calls with batch 1-4, 1-4 epochs, with or without validation data (early-stopping tolerance 1, 2 or 1000), 1-6 samples (a quarter of them all-zero), learning rates from 1e-5 to 0.1. Invariant after creation and after every call: all unrolled repetitions of every block layer hold bit-identical weights, biases and kernels (read through the hooks), and the `parameters:` number of the Display text equals the model count with each shared parameter once. Kernel blocks with subtract / multiply coupling abort the first step with 'Invalid sub./mul.' (refused loudly: classified unsupported, not asserted on); NaN-diverged runs are discards. Non-trivial: loops >= 2 and weights changed. Distinct = (block and network specification, optimizer, call pattern).".into()
     }
     fn assumptions(&self) -> Vec<String> {
         vec!["'supported coupling' follows the code's own loud refusals: Overwrite is unimplemented!, subtract/multiply for kernel blocks panic before any state is observable".into()]
